@@ -140,5 +140,22 @@ PROPS["C06"] = dict(
     rule="each case is executed into 7 destination pre-states; all recorded outcomes must be identical; operands unchanged",
 )
 
+PROPS["C15"] = dict(
+    mc=[("MC_Order", None)],
+    drivers=["order"],
+    attr=lambda ev, names: ev.get("k") in ("o", "om"),
+    rule="every pair of 54 colliding representations plus seeded pairs engineered per code path (equal exponents, equal "
+         "values with different exponents, equal adjusted exponents, gaps to +-90000) judged by CmpSpec / CmpTotalSpec; "
+         "observed 6x6 result matrices checked for the order axioms without an oracle",
+)
+
+PROPS["C19"] = dict(
+    mc=[("MC_BigNat", None)],
+    drivers=["numdigits", "reduceL"],
+    attr=attr_c19,
+    rule="NumDigits on every bit length 0..260 at 2^n-1, 2^n, 2^n+1, every power of ten 10^k-1, 10^k, 10^k+1 (k<=80 and "
+         "sparse to 1300) of both signs, seeded values to 4096 bits; Reduce on S and trailing-zero-heavy seeded operands",
+)
+
 HOOK_COMMITS = []
 NOT_YET = {}
